@@ -65,6 +65,8 @@ static std::string mutate_once(std::string b, std::string* kind) {
                                                                1LL << 62, -(1LL << 62), (1LL << 31) - 1, 1LL << 31, -(1LL << 31), 0, -1, INT64_MAX - 12622780800LL * 401, INT64_MAX - 31556952LL * 300),
                                     vf::edge_i64());
         if (*vf::range<int>(0, 3) == 0 && L.timecnt) i = L.timecnt - 1;  // the last transition matters most for the extension
+        // extreme values only survive the ordering check at the matching end of the table
+        if (*vf::range<int>(0, 3) != 0) { if (v < -(1LL << 58)) i = 0; else if (v > (1LL << 58)) i = L.timecnt - 1; }
         put_be(b, L.times + i * L.tl, (uint64_t)v, (int)L.tl);
       }
       break;
